@@ -63,7 +63,7 @@ pub fn all_dags(n: usize) -> Vec<G> {
     out
 }
 
-/// Write the workspace for a graph. Nodes with dependencies are composite buildpacks, leaves alternate between
+/// Write the workspace for a graph. Nodes with dependencies alternate between composite buildpacks and libcnb.rs component buildpacks carrying a package.toml, leaves alternate between
 /// libcnb.rs buildpacks (Cargo.toml + component descriptor) and composites without dependencies. Decoys: non-libcnb
 /// component buildpacks, docker/path dependencies, nested directories.
 pub fn materialise(g: &G, root: &Path) -> std::io::Result<()> {
@@ -73,12 +73,22 @@ pub fn materialise(g: &G, root: &Path) -> std::io::Result<()> {
         let dir = if i % 2 == 0 { root.join(format!("buildpacks/bp{i}")) } else { root.join(format!("nested/deeper/bp{i}")) };
         std::fs::create_dir_all(&dir)?;
         let id = node_id(i);
-        let composite = !deps.is_empty() || g.dangling == Some(i) || i % 3 == 2;
-        if composite {
-            std::fs::write(
-                dir.join("buildpack.toml"),
-                format!("api = \"0.10\"\n\n[buildpack]\nid = \"{id}\"\nversion = \"0.0.{i}\"\n\n[[order]]\n[[order.group]]\nid = \"some/other\"\nversion = \"1.0.0\"\n"),
-            )?;
+        let has_package_toml = !deps.is_empty() || g.dangling == Some(i) || i % 3 == 2;
+        // a libcnb.rs (component) buildpack may declare dependencies in a package.toml just like a composite one
+        let component_with_deps = has_package_toml && (i + g.edges.len()) % 3 == 1;
+        if has_package_toml {
+            if component_with_deps {
+                std::fs::write(
+                    dir.join("buildpack.toml"),
+                    format!("api = \"0.10\"\n\n[buildpack]\nid = \"{id}\"\nversion = \"0.0.{i}\"\n\n[[targets]]\nos = \"linux\"\n"),
+                )?;
+                std::fs::write(dir.join("Cargo.toml"), format!("[package]\nname = \"bp{i}\"\nversion = \"0.0.0\"\n"))?;
+            } else {
+                std::fs::write(
+                    dir.join("buildpack.toml"),
+                    format!("api = \"0.10\"\n\n[buildpack]\nid = \"{id}\"\nversion = \"0.0.{i}\"\n\n[[order]]\n[[order.group]]\nid = \"some/other\"\nversion = \"1.0.0\"\n"),
+                )?;
+            }
             let mut p = String::from("[buildpack]\nuri = \".\"\n");
             // decoys first / interleaved
             p.push_str("\n[[dependencies]]\nuri = \"docker://docker.io/heroku/decoy:1.0\"\n");
